@@ -40,11 +40,12 @@ HARNESSES["fault_enum"] = {"srcs": ["src/harness/fault_enum.cc"], "variant": "as
 HARNESSES["fault_enum_pat"] = {"srcs": ["src/harness/fault_enum.cc"], "variant": "cl_pattern"}
 HARNESSES["fault_enum_zero"] = {"srcs": ["src/harness/fault_enum.cc"], "variant": "cl_zero"}
 HARNESSES["env_enum"] = {"srcs": ["src/harness/env_enum.cc"], "variant": "asan"}
+HARNESSES["subsecond"] = {"srcs": ["src/harness/subsecond.cc"], "variant": "asan"}
 HARNESSES["fixed_posix"] = {"srcs": ["src/harness/fixed_posix.cc"], "variant": "asan"}
 HARNESSES["civil_conf"] = {"srcs": ["src/harness/civil_conf.cc"], "variant": "asan"}
 
 SETUP_VARIANTS = ["asan", "plain", "sched", "asan_rec", "cl_pattern", "cl_zero"]
-SETUP_HARNESSES = ["zone_conf", "civil_conf", "fixed_posix", "sched_explore", "hidden_state", "fault_enum", "fault_enum_pat", "fault_enum_zero", "env_enum"]
+SETUP_HARNESSES = ["zone_conf", "civil_conf", "fixed_posix", "sched_explore", "hidden_state", "fault_enum", "fault_enum_pat", "fault_enum_zero", "env_enum", "subsecond"]
 
 E1_LEVEL_NOTE = ("Trusted base: the reference model in /verif/src/common (128-bit calendar, RFC 9636 TZif reader, "
                  "POSIX TZ evaluator - written from the specifications, self-checked by a brute-force day walk), "
@@ -270,6 +271,12 @@ CHECKS["C12"] = {
     "vacuity": c12_vac, "budget": {"quick": 400, "thorough": 3000},
 }
 
+CHECKS["C18"] = mk_simple("C18", "subsecond", "sub-second time points floor toward the past",
+    "duration panel {int64 ns/us/ms/(1/3 s)/fs; int64 s; int32 min, h; int16 s, min; int8 s, min}: EVERY value of the int8/int16 representations; [-1e5,1e5] and both limits -+1000 for int32; for int64 sub-second reps whole seconds {-2,-1,0,1,+-59,+-60,+-3599..3601,+-86400,+-2^31, limits -+2..4} x remainders {0,1,2,ratio/2-1..+1,ratio-2,ratio-1,10^k-1,10^k,10^k+1} on both sides of zero; x zones {UTC, fixed -30 s, fixed +5:45}; on each: split_seconds, lookup, convert, format %E*S, %E*f, %E#S/%E#f for # in {0,1,2,3,6,9,12,14,15,16,18}; parse (via %s and via %Y-%m-%d %H:%M:%S) into {int64/int32/int16/int8 s, int8/int16/int32/int64 min, int32/int64 h, int64 days} for every second within +-2 h of the epoch and within +-(2 units+2) of both limits of each target; class = duration x sign x multiple/non-multiple x in/out of range",
+    "128-bit floor division is the oracle: second = floor(count*num/den), remainder >= 0, fractional digits truncated (never rounded); parse into a coarse target = floor(sec/Num) if it fits the representation, otherwise false.",
+    ["C18:int64-ns:neg-nonmultiple", "C18:int8-s:neg-multiple", "C18:int64-third:neg-nonmultiple", "C18:parse:int32-h:neg-nonmultiple", "C18:parse:int8-min:out-of-range", "C18:parse:int16-s:out-of-range"],
+    "Trusted base: ref_civil.h; parse into sub-second targets near their limits is excluded (documented TODO #199; the property restricts itself to whole seconds or coarser).",
+    min_eval=1000000)
 CHECKS["C19"] = mk_simple("C19", "env_enum", "zone names resolve as documented; failures fall back to UTC",
     "complete product TZDIR in {unset, empty, valid dir, missing dir, valid dir with trailing /} x TZ in {unset, empty, X, :X, ::X, localtime, :localtime, invalid, absolute path, UTC, ':', fixed name} x LOCALTIME in {unset, valid path, invalid path, empty, relative name} = 300 environments, each in a fresh exec of the probe; in each: 29 names (relative valid/missing, absolute valid/missing, file:-prefixed, empty, a directory, 0-byte file, files truncated at each structural boundary, garbage, a leap-second file, ':'-prefixed, UTC, UTC0, fixed names, case/slash variants) + local_time_zone() + default-constructed zone; class = call kind x expected outcome",
     "Every (environment, name) pair is resolved by a reference resolver written from the header comments (name -> path -> reference TZif reader); returned bool, UTC identity, name() and the offsets/abbreviations at three instants must match; a second load in the same process must agree.",
